@@ -96,7 +96,10 @@ func c11once(c *core.Ctx) {
 		}
 	}
 	// (b) lazily built fields: type -> fields
-	lazy := []struct{ pkg, typ string; fields []string }{
+	lazy := []struct {
+		pkg, typ string
+		fields   []string
+	}{
 		{"notations/jschema", "JSchema", []string{"Inner", "ASTNode"}},
 		{"notations/regex", "RSchema", []string{"pattern", "RE"}},
 		{"rules/enum", "Enum", []string{"values"}},
